@@ -328,5 +328,5 @@ CANARIES = [
 TRUSTED = ["E6 queue.Queue (maxsize 0): put() is one critical section of the mutex calling self._put(item); get() is one critical section that waits for _qsize() > 0 and calls self._get(); _init is called once by the constructor",
            "CPython: one attribute load/store is atomic", "E10 dataclass-generated __eq__/__hash__ compare (class, fields): structural lemmas + [bounded] all-pairs battery",
            "items' == is an equivalence relation"]
-ASSUMPTIONS = ["rely: other threads only run _put/_get sections (enqueue history only grows, dequeue count only grows)"]
+ASSUMPTIONS = ["rely: other threads only run _put/_get sections (enqueue history only grows, dequeue count only grows) - for the code of the package this is the content of the two frame lemmas (no other writer of _last_item inside the class; no module outside bricks.py touches a queue's internals); application code reaching into the queue is outside the library"]
 UNDECIDED_PARTS = ["the equality law of event objects is decided structurally and by the bounded all-pairs battery, not by the SMT proof"]
